@@ -248,15 +248,29 @@ def check_spawn(chk, tu):
             return unk('pthread_create-result', 'int')
 
         def strcmp(interp, args, node):
-            return 0 if args[0] == args[1] else 1
-        leafs.update({'calloc': calloc, '@atomic': atomic, 'pthread_create': pcreate, 'strcmp': strcmp})
+            a, b = args[0], args[1]
+            if isinstance(a, str) and isinstance(b, str):
+                return (a > b) - (a < b)
+            return Sym('call', ('strcmp',))
+
+        def strncmp(interp, args, node):
+            a, b, n_ = args[0], args[1], args[2]
+            if isinstance(a, str) and isinstance(b, str) and isinstance(n_, int):
+                a2, b2 = (a + '\0')[:n_], (b + '\0')[:n_]
+                return (a2 > b2) - (a2 < b2)
+            return Sym('call', ('strncmp',))
+        leafs.update({'calloc': calloc, '@atomic': atomic, 'pthread_create': pcreate, 'strcmp': strcmp, 'strncmp': strncmp,
+                      'memcmp': strncmp})
         it = W.make_interp(tu, st2, leafs)
         start = pe.FuncRef('mod_wasi_thread_start')
 
         def setup():
             st2.clear()
             W.seed_globals(it, tu, st2, std_table(0))
-            exports = [{'func': pe.FuncRef('mod_other'), 'name': 'other'}]
+            exports = [{'func': pe.FuncRef('mod_other'), 'name': 'other'},
+                       {'func': pe.FuncRef('mod_lookalike1'), 'name': 'wasi_thread_start_hook'},
+                       {'func': pe.FuncRef('mod_lookalike2'), 'name': 'wasi_thread_star'},
+                       {'func': pe.FuncRef('mod_lookalike3'), 'name': '_wasi_thread_start'}]
             if has_export:
                 exports.append({'func': start, 'name': 'wasi_thread_start'})
             exports.append({'func': 0, 'name': 0})
@@ -268,7 +282,8 @@ def check_spawn(chk, tu):
             if not has_export:
                 neg = isinstance(p.ret, int) and (p.ret & 0x80000000) != 0
                 chk.expect(neg and 'calloc' not in names and 'pthread_create' not in names, 'R15.5', 'missing-export-is-negative',
-                           'without a wasi_thread_start export thread-spawn returns %r after %r' % (p.ret, names), site + ':missing-export')
+                           'without a wasi_thread_start export (only look-alikes wasi_thread_start_hook, wasi_thread_star, _wasi_thread_start) '
+                           'thread-spawn returns %r after %r' % (p.ret, names), site + ':missing-export')
                 continue
             if 'pthread_create' not in names:
                 chk.expect(isinstance(p.ret, int) and p.ret & 0x80000000, 'R15.5', 'no-thread-negative[%s]' % p.cond_text()[:40],
